@@ -1367,7 +1367,8 @@ func (f *Frame) liveObl(reach string, st *State, reg, what string) {
 		return // nil slice
 	}
 	h := e.heap("G!released", "Bool", false)
-	f.addObl("live", "C20.live", reach, or(eq(reg, "0"), not(sx("select", e.heapTerm(st, h), reg))), nil, nil, "")
+	// embedded arrays (negative ids) and nil are never released
+	f.addObl("live", "C20.live", reach, or(sx("<=", reg, "0"), not(sx("select", e.heapTerm(st, h), reg))), nil, nil, "")
 	_ = what
 }
 
